@@ -15,6 +15,10 @@ runs after editing each task), plus a real transfer of all records into an empty
 put_records followed by the same recovery tree.  TLC evaluates the contract on the logged data of
 every real run (which node the parent's job ended with, which tasks executed, the registry) and
 validates every run and every transfer against the model, CallSubtreeTask rows included.
+Second model: spec/sched/Scheduler.tla carries the scheduler's side -- the subtree task set a job hands to
+its ancestors (`sub`), the recorded nodes (`nodeTab`) and the ultimate-reduction hit -- over every schedule of
+run / edit / run / revert / run plans; deviation DevCseSubtree (a CSE-answered job reported only its own
+task; repaired by a fix: commit) is kept switchable and TLC shows it breaks Deterministic on program cur15.
 """
 
 from __future__ import annotations
@@ -22,7 +26,9 @@ from __future__ import annotations
 import copy
 
 from .. import cachelab as L
+from .. import schedlab
 from ..core import Ctx
+from ..tlc import expect_violation
 from . import c22
 
 META = {
@@ -90,6 +96,33 @@ def run(ctx: Ctx) -> None:
     ctx.note("shallow_hits_observed", nhit)
     ctx.note("imports", nimp)
     ctx.require(nhit > 0 and nimp > 0, "no shallow hit or no import was exercised")
+    scheduler_part(ctx)
+
+
+def _corrupt(t: dict) -> bool:
+    if t["hdr"]["mode"] == "real" and t["hdr"]["expect"]["res"] == "ok" and t["evs"][-1].get("outcome") == "value":
+        t["hdr"]["expect"] = {"res": "ok", "v": t["hdr"]["expect"]["v"] + 1}
+        return True
+    return False
+
+
+def scheduler_part(ctx: Ctx) -> None:
+    """The scheduler's side of the subtree task sets (spec/sched/Scheduler.tla: nodeTab, HitUltimate, `sub`):
+    which tasks a job reports to its ancestors depends on how it was answered (executed, single reduction,
+    CSE, collapse, ultimate reduction), hence on the schedule.  TLC checks Deterministic over every schedule of
+    run / edit / run (/ revert / run) plans; behaviours, corner and random schedules are replayed on the real
+    scheduler and judged against the reference value."""
+    progs = schedlab.shallow_programs(ctx, ctx.pick(3, 16), "c03")
+    # the deviation (redun as pinned: a CSE-answered job reports only its own task) breaks exactly this
+    devs = schedlab.DEVS.replace("DevCseSubtree = FALSE", "DevCseSubtree = TRUE")
+    mc = schedlab.model_check(ctx, progs[:1], dev=False, invariants=["Deterministic"], hang_report=False, devs=devs)
+    ctx.add_tlc(expect_violation(mc, "Deterministic", "Scheduler.tla with DevCseSubtree on cur15"))
+    r = schedlab.suite(ctx, ["determ"], n_random_progs=0, n_sim=ctx.pick(40, 600), n_random_hist=ctx.pick(30, 500),
+                       corrupt=_corrupt, tag="c03", progs=progs,
+                       need_handlers=("exec", "done", "resolve", "finish"))
+    ult = sum(1 for m in r["meta"] if m["prog"]["ns"].startswith("cur15"))
+    ctx.note("scheduler_model_programs", len(progs))
+    ctx.require(ult > 0, "the CSE-beneath-shallow program was not replayed")
 
 
 def replay(ctx: Ctx, rec: dict) -> None:
